@@ -122,6 +122,16 @@ func init() {
 			kk := p.BV(k, 64)
 			return Slice{data: data[:k:k], off: p.BV(0, 64), ln: kk, cp: kk}
 		},
+		// vrtArrayBytes(n): n zero bytes held in one SMT array (symbolic indexing without forking)
+		"vrtArrayBytes": func(fr *frame, a []Value) Value {
+			e := fr.th.eng
+			p := e.pool
+			n := e.path.Concretize(a[0].(*Term), "vrtArrayBytes n")
+			e.narr++
+			obj := &ArrObj{name: fmt.Sprintf("arr%d", e.narr), arr: p.ConstArr(p.BV(0, 8)), size: int64(n)}
+			nn := p.BV(n, 64)
+			return Slice{arr: obj, off: p.BV(0, 64), ln: nn, cp: nn}
+		},
 		// vrtBytesN(name, n): exactly n symbolic bytes (n concrete), cap == len
 		"vrtBytesN": func(fr *frame, a []Value) Value {
 			e := fr.th.eng
